@@ -91,7 +91,10 @@ def run_schedule(kspec: Any, arrivals: tuple[tuple[float, str, str], ...], perio
         # the pending request's own timeout expires a hair before the first pong deadline and the loop, briefly blocked, runs both
         # timers in one iteration: the request has just been failed (its task has not resumed yet) when the connection is declared dead
         kspec = float(kspec[7:])
-    w = ConnWorld(client=default, keepalive=None if default else float(kspec), debug=dbg)
+    noname = isinstance(kspec, str) and kspec.startswith("noname:")
+    if noname:
+        kspec = float(kspec[7:])  # a device that announces no name in its hello (the field is optional)
+    w = ConnWorld(client=default, keepalive=None if default else float(kspec), debug=dbg, **({"device_name": ""} if noname else {}))
     try:
         stops: list[tuple[float, bool]] = []
         if default:
@@ -299,6 +302,14 @@ def run(tier: str, seed: int) -> Result:
         jobs += schedules(f"slow:{sl}:2.0", 1 if q else 2, KINDS, ("PRESP", "UK"))
     for kk in (1.0, 2.0):
         jobs += schedules(f"reqdue:{kk}", 1 if q else 2, KINDS, ("PRESP", "UK"))
+    jobs += schedules("noname:2.0", 1 if q else 2, KINDS, ("PRESP", "UK"))
+    # keepalive values whose 4.5*K has many decimals, and very small ones: nothing is rounded
+    # (arrivals strictly inside the grid cells: with non-dyadic K a "tie" would be decided by floating-point noise)
+    for kk in (0.3, 0.07, 0.013, 0.002, 0.001, 1e-4, 123.456):
+        jobs.append((kk, ()))
+        for s_ in [x + 0.5 for x in range(0, PERIODS * GRID - 1)]:
+            for kd in ("PRESP", "UK"):
+                jobs.append((kk, ((s_, kd, "io"),)))
     # a loop that was blocked: the n-th timer runs late by a fraction of K; everything is measured from when it actually ran
     for k in (1.0, 4.0):
         for n in range(0, 9):
